@@ -358,6 +358,8 @@ class C01Driver:
             feats["worlds_with_human_drivers"] += int(any(v.get("schedule") for v in sp["vehicles"]))
             feats["worlds_with_a_scripted_controller"] += int(any(g.startswith("adv") for g in (plan["run"].get("generators") or [])))
             feats["worlds_on_a_street_graph"] += int(sp["network"]["kind"] != "haversine")
+            feats["scarce_worlds_one_station_one_plug"] += int(len(sp["stations"]) == 1 and sum(p["count"] for p in sp["stations"][0]["plugs"]) == 1)
+            feats["worlds_ranking_stations_by_time_to_charge"] += int(sp.get("dispatcher", {}).get("charging_search_type") == "shortest_time_to_charge")
         self._viol_plans = {v["plan_index"]: v for v in viol}
         cov = {"evaluations": len(plans), "distinct_nontrivial": len(nontriv), "interpreters_per_scenario": k, "hash_seeds": hashseeds,
                "steps": steps, "simulated_seconds": sim_s, "simulated_hours": sim_s / 3600.0, "scenarios_diverging": diverged, "world_features": feats, "scenarios_ended_by_an_exception_escaping_hive_identically_in_all_interpreters": stopped_n,
